@@ -67,9 +67,12 @@ class Kit:
     def box(self, spec):
         kind = spec[0]
         if kind == "box":
-            b = self.Box(spec[1], self.ty(spec[2]), self.ty(spec[3]))
+            kw = dict(data=spec[5]) if len(spec) > 5 else {}
+            if len(spec) > 5 and isinstance(kw["data"], tuple):
+                kw["data"] = list(kw["data"])
+            b = self.Box(spec[1], self.ty(spec[2]), self.ty(spec[3]), **kw)
             if len(spec) > 4 and spec[4]:
-                b = self.Box(spec[1], self.ty(spec[3]), self.ty(spec[2])).dagger()
+                b = self.Box(spec[1], self.ty(spec[3]), self.ty(spec[2]), **kw).dagger()
             return b
         if kind == "swap":
             return self.Swap(self.ty([spec[1]]), self.ty([spec[2]]))
